@@ -106,7 +106,7 @@ def server_part(ctx, rng, cases, worst, thorough):
             d = {"part": "server", "sent": show_frames(frames), "chunks": hexl(chunks),
                  "handled_per_read": [show_frames(hs) for hs, _, _ in obs], "buf_after": [b.hex() for _, b, _ in obs]}
             if v:
-                worst.add(v[0], (len(frames), L, len(chunks)), v[1], d)
+                worst.add(v[0], (0, len(frames), L, len(chunks)), v[1], d)
                 ctx.count("server_oracle_failures")
             if forced or idx in pick or (v and ncoq < 40):
                 cases.append((F.server_case(chunks, obs), d))
@@ -185,12 +185,16 @@ def node_part(ctx, rng, cases, worst, thorough):
              "writes": [[c, w.hex() if isinstance(w, bytes) else repr(w)] for c, w in node.writes]}
         cases.append((F.node_case(ops, node), d))
         # oracle
+        framing_ok = True
         for c in range(k):
             handled_c = [(i, m) for cc, i, m in node.log if cc == c]
             if handled_c != per_conn[c]:
+                framing_ok = False
                 v = judge_server(per_conn[c], [b"x"], [(handled_c, node.bufs()[c], False)])
-                worst.add(v[0] if v else "node:handled-differs", (k, len(ops), 0),
+                worst.add(v[0] if v else "node:handled-differs", (1, k, len(ops)),
                           "connection %d: %s" % (c, v[1] if v else "handled != sent"), d)
+        if not framing_ok:
+            continue                       # Done ids cannot be judged when messages were not handled
         all_ids = sorted(i for fs in per_conn for i, _ in fs)
         written = sorted(i for c in range(k) for i in F.parse_done_ids(node.writes, c))
         bad_conn = [c for c in range(k) if F.parse_done_ids(node.writes, c) != [i for i, _ in per_conn[c]]]
@@ -321,7 +325,7 @@ def end_to_end_part(ctx, rng, cases, worst, thorough):
         cases.append((F.client_case(len(msgs) + 2, b"", chunks_down, calls, bytes(cl.buf)), d))
         v = judge_server(frames, chunks_up, obs)
         if v:
-            worst.add(v[0], (len(frames), len(up), len(chunks_up)), v[1], d)
+            worst.add(v[0], (0, len(frames), len(up), len(chunks_up)), v[1], d)
             continue
         want = []
         for i, m in frames:
@@ -385,7 +389,7 @@ def socket_part(ctx, rng, cases, worst, thorough):
         tx, rx = F.socket_pair()
         if rng.random() < 0.5 and not kind.startswith("witness"):
             tx, rx = rx, tx
-        sent_vals, got_vals, mops, inflight = [], [], [], 0
+        sent_vals, got_vals, mops, inflight, events = [], [], [], 0, []
         try:
             for o in sched:
                 if o[0] == "send":
@@ -396,12 +400,14 @@ def socket_part(ctx, rng, cases, worst, thorough):
                     assert tx._app_socket.sent[-1] == raw
                     sent_vals.append((o[1], o[2], len(raw)))
                     mops.append(("send", raw))
+                    events.append(("send", len(raw), o[2]))
                     inflight += len(raw)
                 else:
                     if inflight == 0:
                         continue                      # a blocking recv on an empty stream is not an event
                     try:
-                        v = (rx.recv if o[1] == "plain" else rx.recv_structured)(maxsize=o[2])
+                        fn = rx.recv if o[1] == "plain" else rx.recv_structured
+                        v = fn() if o[2] == 1024 else fn(maxsize=o[2])      # 1024 is the documented default
                     except Exception as e:            # noqa: BLE001  (UnpicklingError, UnicodeDecodeError, EOFError ...)
                         v = ("EXC", type(e).__name__)
                     raw = rx._app_socket.got[-1]
@@ -414,7 +420,9 @@ def socket_part(ctx, rng, cases, worst, thorough):
                         worst.add("socket:value-is-not-the-decoded-read", (len(sched), len(raw), 0),
                                   "recv returned %r for raw bytes %s" % (v, raw[:40].hex()), {"part": "socket", "schedule": repr(sched)[:2000]})
                     got_vals.append(v)
-                    mops.append(("recv", o[2], len(raw)))
+                    # the model is asked what a local stream socket does: everything that has arrived, up to maxsize
+                    mops.append(("recv", o[2], o[2]))
+                    events.append((o[2], len(raw), v))
                     inflight -= len(raw)
             ctx.count("socket_runs")
             ctx.count("socket_runs_" + kind)
@@ -429,33 +437,36 @@ def socket_part(ctx, rng, cases, worst, thorough):
             if got_vals != want:
                 ctx.count("socket_oracle_failures")
                 sizes = [n for _, _, n in sent_vals]
-                reads = [len(g) for g in rx._app_socket.got]
-                # classify by where the reads fall in the stream of sends
-                bounds, acc = set(), 0
-                for n in sizes:
-                    acc += n
-                    bounds.add(acc)
-                pos, coalesced, truncated = 0, False, False
-                for r in reads:
-                    inner = [b for b in bounds if pos < b < pos + r]
-                    if inner:
-                        coalesced = True
-                    if (pos + r) not in bounds:
-                        truncated = True
-                    pos += r
-                intact = b"".join(rx._app_socket.got) == b"".join(tx._app_socket.sent)[:pos]
+                # classify the FIRST deviation (later ones are its consequences): replay the events over a FIFO of
+                # outstanding message sizes
+                fifo, key, what = [], None, ""
+                for ev in events:
+                    if ev[0] == "send":
+                        fifo.append((ev[1], ev[2]))
+                        continue
+                    maxsize, r, v = ev
+                    size, val = fifo[0]
+                    if v == val and r == size:
+                        fifo.pop(0)
+                        continue
+                    if len(fifo) == 1 and size <= maxsize:
+                        key, what = ("socket:single-message-within-maxsize-not-received-intact",
+                                     "one message of %d bytes was in flight, recv(maxsize=%d) returned %d bytes: %r" % (size, maxsize, r, repr(v)[:60]))
+                    elif size > maxsize:
+                        key, what = K_D10B, ("a message of %d bytes was returned by recv(maxsize=%d) as %d bytes" % (size, maxsize, r))
+                    elif r > size:
+                        key, what = K_D10A, ("%d sends were outstanding when recv(maxsize=%d) was called: it returned %r, the first message sent was %r"
+                                             % (len(fifo), maxsize, repr(v)[:40], repr(val)[:40]))
+                    elif r == size and len(fifo) > 1:
+                        key, what = K_D10A, "structured message decoded from a coalesced read differs"
+                    else:
+                        key, what = ("socket:message-within-maxsize-truncated",
+                                     "first of %d outstanding messages has %d bytes, recv(maxsize=%d) returned %d bytes" % (len(fifo), size, maxsize, r))
+                    break
+                intact = b"".join(rx._app_socket.got) == b"".join(tx._app_socket.sent)[:sum(len(g) for g in rx._app_socket.got)]
                 if not intact:
-                    worst.add("socket:byte-stream-corrupted", (len(mops), 0, 0), "bytes read differ from bytes sent", d)
-                elif coalesced:
-                    worst.add(K_D10A, (len(mops), sum(sizes), 0),
-                              "%d sends were outstanding when recv was called: it returned %r, sent was %r"
-                              % (len(sizes), got_vals[:2], [repr(w)[:30] for w in want[:2]]), d)
-                elif truncated:
-                    worst.add(K_D10B, (len(mops), sum(sizes), 0),
-                              "a message of %d bytes was returned by recv(maxsize=%s) as %d bytes"
-                              % (max(sizes), [m[1] for m in mops if m[0] == "recv"][:1], reads[0]), d)
-                else:
-                    worst.add("socket:values-differ", (len(mops), 0, 0), "received %r" % (got_vals[:3],), d)
+                    key, what = "socket:byte-stream-corrupted", "bytes read differ from bytes sent"
+                worst.add(key or "socket:values-differ", (len(mops), sum(sizes), 0), what or "received %r" % (got_vals[:3],), d)
         finally:
             for s in (tx, rx):
                 s._app_socket.close()
